@@ -92,9 +92,11 @@ def make_tree(root, config):
                         "foreign-type": text.replace('"productmd.%s"' % {"info": "composeinfo"}.get(acc, acc), '"productmd.discinfo"'),
                         "bad-version": text.replace('"version": "1.2"', '"version": "1.x"'),
                         "other-kind-1.1": t["rpms" if acc != "rpms" else "images"].replace('"version": "1.2"', '"version": "1.1"'),
-                        "bad-date": re.sub(r'"date": "[0-9]{8}"', '"date": "2016"', text)}[how]
+                        "bad-date": re.sub(r'"date": "[0-9]{8}"', '"date": "2016"', text),
+                        # intact JSON structure, but a byte inside a string that is not UTF-8 (written below)
+                        "invalid-utf8": text.replace('"id": "', '"id": "\udcff', 1)}[how]
                 assert text != t[acc].replace(TAG, "%s-%s" % (loc, name.replace(".", "_"))), "the %s damage did not change the file" % how
-            with open(os.path.join(d, name), "w") as f:
+            with open(os.path.join(d, name), "w", encoding="utf-8", errors="surrogateescape") as f:
                 f.write(text)
     for s in config.get("siblings", []):
         os.makedirs(os.path.join(root, s))
@@ -480,7 +482,7 @@ def run_unit(unit, acc):
         loc = unit[1]
         for files in (REDUCED_PATTERNS[0], REDUCED_PATTERNS[3], ["composeinfo.json", "images.json", "image-manifest.json", "rpms.json", "rpm-manifest.json"]):
             for name in files:
-                for how in ("garbage", "empty", "truncated", "foreign-type", "bad-version", "bad-date", "other-kind-1.1"):
+                for how in ("garbage", "empty", "truncated", "foreign-type", "bad-version", "bad-date", "other-kind-1.1", "invalid-utf8"):
                     config = {"locs": {loc: list(files)}, "broken": [loc, name, how], "siblings": []}
                     for seq in BOTH_ORDERS:
                         _check({"config": config, "sequence": seq}, acc, "broken")
